@@ -49,6 +49,8 @@ structure Solver (K : Type) (n p m : Nat) where
   kktInitState : Bool
   setupDone : Bool
   refineOn : Bool
+  /-- rows of G disabled because the entry of h was beyond ±PIQP_INF when h was last passed -/
+  hDisabled : Vector Bool m
 
 section
 variable [Add K] [Sub K] [Mul K] [Div K] [Neg K] [Zero K] [One K] [LT K] [DecidableLT K] [LE K] [DecidableLE K]
